@@ -37,6 +37,7 @@ def run_shard(ctx):
     hyp.drive(ctx, relaykinds.case_strategy, one, ctx.n(200, 4000), salt=11)
     qmgen.drive_histories(ctx, OWN, qmgen.restart_race_history(), ctx.n(600, 10000), nontrivial, salt=8)
     qmgen.drive_histories(ctx, OWN, qmgen.saturated_pool_history(), ctx.n(600, 10000), nontrivial, salt=9)
+    qmgen.drive_histories(ctx, OWN, qmgen.announce_window_history(), ctx.n(800, 12000), nontrivial, salt=11)
 
 
 def replay(case):
